@@ -7,7 +7,7 @@ import functools
 
 from . import ctxlib as cl
 
-NOOPTS = {"value": False, "def": False, "skip": False, "raise": False, "rec": True}
+NOOPTS = {"value": False, "def": False, "skip": False, "raise": False, "rec": True, "dv": "obj"}
 
 
 def _exc_name(exc):
@@ -88,7 +88,7 @@ def wrap(ctxmod, records, limit):
         run = (lambda: orig_get(d, keys, default)) if has else (lambda: orig_get(d, keys))
         if path is None or (has and isinstance(default, dict)):
             return run()
-        call = {"op": "get", "path": path, "dflt": has, "tpl": [], "uk": "none", "uv": cl.EMPTY, "o": dict(NOOPTS)}
+        call = {"op": "get", "path": path, "dflt": has, "tpl": [], "uk": "none", "uv": cl.EMPTY, "o": dict(NOOPTS), "lvl": 0}
         # a default equal to something in the context cannot be told apart by identity: use a wrapper leaf
         return record(call, d, run, dflt_obj=default if has and default is not None
                       and not isinstance(default, (bool, int, float, str)) else None) \
@@ -100,7 +100,7 @@ def wrap(ctxmod, records, limit):
         if not isinstance(s, str) or not s or not all(s.split(".")):
             return run()
         call = {"op": "contains", "path": s.split("."), "dflt": False, "tpl": [], "uk": "none", "uv": cl.EMPTY,
-                "o": dict(NOOPTS)}
+                "o": dict(NOOPTS), "lvl": 0}
         return record(call, d, run)
 
     @functools.wraps(orig_fuw)
@@ -115,7 +115,7 @@ def wrap(ctxmod, records, limit):
         except Exception:    # noqa
             return run()
         call = {"op": "fuw", "path": key.split(".") if key else [], "dflt": False, "tpl": [], "uk": "simple",
-                "uv": uv, "o": dict(NOOPTS)}
+                "uv": uv, "o": dict(NOOPTS), "lvl": 0}
         # the value's classes must be numbered together with the context's: re-encode inside record
         return record_fuw(call, value, d, run)
 
